@@ -65,7 +65,10 @@ def builtin_models():
     return res
 
 
-STRUCTURAL_PREFIXES = ('SHAPE:', 'LAYOUT:', 'SCAN:emission', 'GROUND:wiring', 'PATHS:p8-writer')
+# Obligations decided by looking at the FORM of the source (syntactic scans, control-path enumeration, extracted step functions): a
+# failure says that the code no longer has the form the obligation was written for -- after a harmless refactoring as well as after
+# a breaking change.  They become a violation only together with a concrete failing input from the check's bounded native run.
+STRUCTURAL_PREFIXES = ('SHAPE:', 'LAYOUT:', 'SCAN:', 'GROUND:wiring', 'PATHS:', 'SYMEX:')
 
 
 def account(check, results, backend='GROUND'):
